@@ -698,6 +698,18 @@ impl Database {
             Default::default(),
         ));
         self.total_size_estimate = self.total_size_estimate.wrapping_add(info.table.len());
+        // As in `merge_all`: cached indexes only refresh after a reset, so a table whose
+        // version may have changed must have its indexes reset or later index reads are stale.
+        info.column_indexes.update(|_, ti| {
+            if let Some(arc) = Arc::get_mut(ti) {
+                arc.reset();
+            }
+        });
+        info.indexes.update(|_, ti| {
+            if let Some(arc) = Arc::get_mut(ti) {
+                arc.reset();
+            }
+        });
         self.tables.insert(table, info);
         table_changed.added
     }
